@@ -142,6 +142,7 @@ def run(ctx):
             ok = ok and len(pu) == 1 and bool(find_calls(pu[0].args[1], "Summary as std::str::FromStr>::from_str")) and mentions(pu[0].args[1], lambda s: is_call(s, "::next"))
         ctx.check(ok, "D4-ORDER", W, "push-in-splitter-order", "entries.push(Summary::from_str(record)) per record, in order",
                   "entries are not appended once per record in splitter order", fn_span(body))
+        only_appended(ctx, "D4-ORDER", W, "self.entries", lambda t: mentions(t, lambda s: s[0] == "field" and s[3] == "entries"), allowed=("push", "extend", "extend_from_slice", "append"))
         revs = [t for _, t in body.calls() if t["func"]["path"].endswith("::rev") or t["func"]["path"].endswith("::rsplit") or t["func"]["path"].endswith("::rsplit_terminator")]
         ctx.check(not revs, "D4-ORDER", W, "forward", "records are visited front to back", "records are visited in reverse", fn_span(body), nontrivial=False)
 
